@@ -106,6 +106,8 @@ struct P_proj : yp::debug::rebind<P_proj>::replace<yp::rtti, proj_rtti> {};
 // projection on vptr_map
 struct P_projm : yp::release::rebind<P_projm>::replace<yp::rtti, proj_rtti>::remove<yp::type_hash>::replace<
                      yp::external_vptr, yp::vptr_map<P_projm>> {};
+// projection on a v-table pointer vector indexed directly by small integer ids (no hash)
+struct P_projv : yp::release::rebind<P_projv>::replace<yp::rtti, proj_rtti>::remove<yp::type_hash> {};
 // deferred static rtti
 struct P_def : yp::debug::rebind<P_def>::replace<yp::rtti, def_rtti> {};
 // further instances for isolation (C14) and the concurrent "other" policy (C16)
